@@ -428,3 +428,121 @@ def pfx2(cfg):
             res.find(f, f.loc, 'shared_len is not min(first differing byte, clamp): for %s the result is %s, expected %d - a wrong shared prefix length sends lookups into the wrong subtree or splits prefixes at the wrong byte' % bad, key='PFX-2:shared_len', config=cfg.name)
     res.floor('shared-length functions', 2)
     return res
+
+
+def pfx3(cfg):
+    """PFX-3: the prefix of a split leaf is read from the split depth; UNUSED-1: no discarded view computations"""
+    from ..engine import dominators, elem_dominates
+    from ..forwarders import is_assert_elem
+    res = RuleResult('PFX-3', 'key_prefix::make_u64(k1, shifted_k2, depth) - the prefix of the inner node that replaces a split leaf - reads the bytes of the existing key FROM THE SPLIT DEPTH: the view handed to get_u64 is k1.subspan(depth) (assigned before, on every path, or passed directly), and the shared length is computed between that word and shifted_k2. UNUSED-1: no std::span / std::string_view view computation (subspan, first, last, substr) in the library has its result discarded - such a statement has no effect, and the value that was meant to be narrowed is used whole')
+    n = 0
+    for f in cfg.functions:
+        if not f.blocks or f.short != 'make_u64' or 'key_prefix<' not in f.cls:
+            continue
+        n += 1
+        res.functions.add(f.sig)
+        dom = dominators(f)
+        if len(f.params) != 3:
+            res.incompl('PFX-3: make_u64 does not have three parameters')
+            continue
+        k1, depth = f.params[0]['did'], f.params[2]['did']
+
+        def is_shifted(o, d=0):
+            """expression = <k1>.subspan(depth ...)"""
+            x = f.strip_casts(o)
+            while isinstance(x, dict) and x.get('k') == 'call' and x.get('ck') == 'ctor' and len(x.get('args', [])) == 1 and d < 4:
+                x = f.strip_casts(x['args'][0])
+                d += 1
+            if isinstance(x, dict) and x.get('k') == 'call' and x.get('name') == 'subspan' and x.get('obj') is not None and x.get('args'):
+                ob = f.ref_of(x['obj'])
+                hit = []
+                f.walk(x['args'][0], lambda y: hit.append(1) if (y.get('k') == 'ref' and y.get('did') == depth) else None)
+                return bool(ob) and ob[0] == k1 and bool(hit)
+            return False
+        gets = [(b, i, e) for b, i, e in f.elements() if e.get('k') == 'call' and e.get('name') == 'get_u64' and e.get('args') and e.get('obj') is None and not is_assert_elem(e)]
+        if len(gets) != 1:
+            res.incompl('PFX-3: make_u64 does not make exactly one get_u64(view) call (%d)' % len(gets))
+            continue
+        gb, gi, ge = gets[0]
+        arg = ge['args'][0]
+        ok = is_shifted(arg)
+        if not ok:
+            r = f.ref_of(arg)
+            if r:
+                # an assignment v = k1.subspan(depth) (or the initialiser of a local) dominating the use, and no later reassignment
+                for b, i, e in f.elements():
+                    if e.get('k') == 'decl':
+                        for v in e['vars']:
+                            if v['did'] == r[0] and 'init' in v and is_shifted(v['init']):
+                                ok = True
+                    asg = None
+                    if e.get('k') == 'binop' and e.get('op') == '=':
+                        asg = (e['l'], e['r'])
+                    elif e.get('k') == 'call' and e.get('ck') == 'op' and e.get('op') == '=' and len(e.get('args', [])) == 2:
+                        asg = (e['args'][0], e['args'][1])
+                    if asg is not None:
+                        l = f.ref_of(asg[0])
+                        if l and l[0] == r[0] and is_shifted(asg[1]) and elem_dominates(f, dom, (b, i), (gb, gi)):
+                            ok = True
+        res.ob(ok, {'rule': 'PFX-3', 'function': sh(f.sig)[:100], 'site': fileline(ge.get('loc')), 'verdict': 'discharged' if ok else 'VIOLATION'})
+        if not ok:
+            res.find(f, ge.get('loc'), 'make_u64 reads the prefix bytes of the existing key from its first byte instead of from the split depth (the view handed to get_u64 is not k1.subspan(depth)): for a leaf split below the root the new inner node gets the wrong prefix (and, through shared_len, the wrong prefix length) - keys under it can no longer be found, a second insert of a present key succeeds', key='PFX-3:make_u64', config=cfg.name)
+    res.count('leaf-split prefix constructors', n)
+    res.floor('leaf-split prefix constructors', 2)
+    # ---- UNUSED-1
+    m = 0
+    for f in cfg.functions:
+        if not f.blocks or not (f.file or '').startswith(('/repo/', '/tmp/')):
+            continue
+        used = set()
+
+        def mark(x):
+            if x.get('k') == 'e':
+                used.add((x['b'], x['i']))
+        cands = []
+        for b, i, e in f.elements():
+            for key in ('l', 'r', 'sub', 'obj', 'e', 'c', 'a', 'b', 'base', 'idx', 'of'):
+                v = e.get(key)
+                if isinstance(v, dict):
+                    mark(v)
+                    if v.get('k') != 'e':
+                        f.walk(v, lambda y: None)
+            for v in e.get('args', []) or []:
+                if isinstance(v, dict):
+                    mark(v)
+            for v in e.get('vars', []) or []:
+                if isinstance(v.get('init'), dict):
+                    mark(v['init'])
+            if e.get('k') == 'call' and e.get('name') in ('subspan', 'first', 'last', 'substr') and (e.get('cls') or '').startswith(('std::span<', 'std::basic_string_view<')):
+                cands.append((b, i, e))
+        for b, blk in f.blocks.items():
+            if isinstance(blk.get('cond'), dict):
+                mark(blk['cond'])
+        for b, i, e in cands:
+            m += 1
+            # nested inline operands: walk every element's inline trees for references
+            ok = (b, i) in used or _referenced_inline(f, b, i)
+            res.ob(ok, {'rule': 'UNUSED-1', 'function': sh(f.sig)[:90], 'site': fileline(e.get('loc')), 'call': e.get('name'), 'verdict': 'discharged' if ok else 'VIOLATION'} if m < 60 else None)
+            if not ok:
+                res.find(f, e.get('loc'), '%s: the result of `%s` on a %s is discarded - the statement has no effect; the view that was meant to be narrowed (shifted to the current depth, cut to a length) is used whole, so the bytes compared / copied afterwards are not the ones the algorithm is about' % (f.short, e.get('name'), 'std::span' if 'span' in (e.get('cls') or '') else 'string view'), key='UNUSED-1:%s:%s' % (f.short, e.get('name')), config=cfg.name)
+    res.count('view computations', m)
+    res.floor('view computations', 5)
+    return res
+
+
+def _referenced_inline(f, b, i):
+    hit = []
+
+    def v(x):
+        if x.get('k') == 'e' and x.get('b') == b and x.get('i') == i:
+            hit.append(1)
+    for b2, i2, e in f.elements():
+        if (b2, i2) == (b, i):
+            continue
+        f.walk(e, v)
+        if hit:
+            return True
+    for blk in f.blocks.values():
+        if isinstance(blk.get('cond'), dict):
+            f.walk(blk['cond'], v)
+    return bool(hit)
